@@ -36,6 +36,11 @@ def named_type(t):
     return t["name"]
 
 
+def var_name(vd):
+    v = vd["variable"]
+    return v["name"] if isinstance(v, dict) else v
+
+
 def is_leaf(schema, name):
     t = schema.types.get(name)
     return t is None or t["kind"] in ("SCALAR", "ENUM")
@@ -103,7 +108,7 @@ class ResponseGen:
     def variables(self, opdef):
         out = {}
         for vd in opdef["variableDefinitions"]:
-            name = vd["variable"]["name"] if isinstance(vd.get("variable"), dict) else vd.get("name")
+            name = var_name(vd)
             t = vd["type"]
             if t["kind"] != "NonNullType" and self.r.random() < 0.15:
                 self.stats["variables_omitted"] += 1
@@ -326,8 +331,14 @@ def run_runtime(c, invoke=False, want_keys=True, null_w=0.2, min_list=0, max_lis
     poss = {}
     for pk, info in pointer_decls(c.root).items():
         poss[pk] = {"list": info["list"], "possible": sorted(schema.possible_types(info["target"])) or None}
+    refetch_args = {}
+    for name, ex in exposed_fields(c.schema_texts).items():
+        for _from, to in ex["field_map"]:
+            parts = to.split(".")
+            if len(parts) > 1:       # the mapped id goes inside an input object: the caller passes the rest of that object
+                refetch_args.setdefault(name, {})[parts[0]] = {"marker": "arg:" + parts[0]}
     job = {"artifactDir": c.artifact_dir(), "allEntrypoints": sorted(c.model["entrypoints"]), "entrypoints": job_eps,
-           "pointers": poss, "wantKeys": want_keys, "invoke": invoke, "loadableArgs": {}}
+           "pointers": poss, "wantKeys": want_keys, "invoke": invoke, "loadableArgs": {}, "refetchArgs": refetch_args}
     jf, of = os.path.join(c.root, ".rt_job.json"), os.path.join(c.root, ".rt_out.json")
     with open(jf, "w") as f:
         json.dump(job, f)
@@ -793,8 +804,7 @@ class Refetchable:
 
 
 def entry_varmap(opdef):
-    return {vd["variable"]["name"] if isinstance(vd.get("variable"), dict) else vd["name"]: ["var", vd["variable"]["name"] if isinstance(vd.get("variable"), dict) else vd["name"]]
-            for vd in opdef["variableDefinitions"]}
+    return {var_name(vd): ["var", var_name(vd)] for vd in opdef["variableDefinitions"]}
 
 
 def unwrap_refetch(opdef, schema, kind, exposed, refined_from=None):
@@ -836,7 +846,7 @@ def unwrap_refetch(opdef, schema, kind, exposed, refined_from=None):
 
 
 def op_var_names(opdef):
-    return [vd["variable"]["name"] if isinstance(vd.get("variable"), dict) else vd["name"] for vd in opdef["variableDefinitions"]]
+    return [var_name(vd) for vd in opdef["variableDefinitions"]]
 
 
 def analyze_c25(c, spec):
